@@ -99,6 +99,8 @@ void picture_control_set_dctor(EbPtr p) {
     uint16_t           tile_cnt = obj->tile_row_count * obj->tile_column_count;
     uint8_t            depth;
     svt_av1_hash_table_destroy(&obj->hash_table);
+    // palette tokens of a picture that did not reach entropy coding
+    EB_FREE_ARRAY(obj->tile_tok[0][0]);
     EB_FREE_ALIGNED_ARRAY(obj->tpl_mvs);
     EB_FREE_ALIGNED(obj->rst_tmpbuf);
     EB_DELETE_PTR_ARRAY(obj->enc_dec_segment_ctrl, tile_cnt);
@@ -1073,6 +1075,12 @@ static void picture_parent_control_set_dctor(EbPtr ptr) {
     PictureParentControlSet *obj = (PictureParentControlSet *)ptr;
 
     EB_DELETE(obj->denoise_and_model);
+    // temporal filtering work buffers of a picture that was still in flight
+    for (int c = 0; c < 3; c++) {
+        EB_FREE_ARRAY(obj->altref_buffer_highbd[c]);
+        EB_FREE_ARRAY(obj->save_enhanced_picture_ptr[c]);
+        EB_FREE_ARRAY(obj->save_enhanced_picture_bit_inc_ptr[c]);
+    }
     if (obj->is_chroma_downsampled_picture_ptr_owner)
         EB_DELETE(obj->chroma_downsampled_picture_ptr);
 
